@@ -16,7 +16,8 @@ RACE_RULE = (" stagerace (no model run, oracles on facts): the real Stage with c
              "as soon as the validator has the staged file open (seen in /proc/self/fd) a second, tiny version of the same name - intact or corrupted in "
              "transit - arrives on another connection; (storm) 2..11 files in predecessor chains, every part (1 in 5 twice) sent by 1..6 goroutines in a "
              "random order; at quiescence: every delivered file has the announced content of one version and the hash of its last log record, nothing is "
-             "logged twice or before its predecessor, every complete file is delivered.")
+             "logged twice or before its predecessor, every complete file is delivered; (ready) a restart on a stage that holds a complete, unvalidated "
+             "16..40 MiB file: from the moment the gate keeper answers 'ready' again no recovered file may still be unvalidated.")
 
 STAGE_RULE = ("stage: seeded operation sequences against a real Stage on a temp directory with the real log.FileIO: 1..4 files (1..24 bytes, nested names, renames, "
               "predecessor chains; profiles: plain protocol, new versions of a name, corruption (flipped bytes, short/failing readers, wrong announced hash, "
@@ -64,6 +65,7 @@ PROPS = {
         suites=[
             dict(name="ranges", pkg="./stage/", test="TestVerifRanges", min_lines=1000),
             dict(STAGE_SUITE, oracles=["companion_claims_unwritten"], diffs=["companions", "received", "scan", "receive"]),
+            race_suite(["complete_file_not_delivered", "acknowledged_part_not_on_record"]),
         ],
         rule=("ranges: every history of <=3 (thorough: <=4) ranges over the grid 0..5 (0..6) with every query range, "
               "plus seeded random histories of <=12 parts at scales 16..2^62 shaped as tilings with identical "
@@ -219,7 +221,7 @@ PROPS = {
     ),
     "C06": dict(
         coq="Properties/C06.v",
-        suites=[dict(name="crash", pkg="./stage/", test="TestVerifCrash", min_lines=30, timeout_quick=900,
+        suites=[dict(name="crash", pkg="./stage/", test="TestVerifCrash", min_lines=30, timeout_quick=900, confirm="crashpoints",
                      oracles=["validated_file_lost_or_misnamed_after_crash", "record_claims_bytes_not_held_after_crash",
                               "delivered_under_lock_name_after_crash", "not_delivered_after_crash_and_resume", "redelivered_after_crash",
                               "delivered_content_not_validated", "companion_claims_unwritten"])],
@@ -240,7 +242,8 @@ PROPS = {
     ),
     "C08": dict(
         coq="Properties/C08.v",
-        suites=[dict(name="send", pkg="./client/", test="TestVerifSend", min_lines=500)],
+        suites=[dict(name="send", pkg="./client/", test="TestVerifSend", min_lines=500),
+                e2e_suite("ooo,faults", ["logged_sent_before_all_bytes_acknowledged"], n=12)],
         rule=("send: the real startSend / handleSendError / payload.Bin.Split / Remove against a scripted network: exhaustively every failure position of every "
               "payload of 1..5 parts x {partial-content answer with count k, error without count + recovery request answering k after 0..2 failed recovery "
               "requests}, plus seeded scripts of up to 4 consecutive failures on payloads of 1..7 parts with files changing between attempts; the parts of "
@@ -375,7 +378,9 @@ PROPS = {
         coq="Properties/C15.v",
         suites=[dict(name="http", pkg="./main/", test="TestVerifHTTP", min_lines=500, timeout_quick=900,
                      oracles=["refused_request_had_effect", "unauthorised_request_processed"],
-                     diffs=["refusal-code", "partials-status"])],
+                     diffs=["refusal-code", "partials-status"]),
+                dict(race_suite(["ready_before_recovery_finished"]), env_quick={"VERIF_RACE_SWAP": 0, "VERIF_RACE_STORM": 8, "VERIF_RACE_READY": 4},
+                     env_thorough={"VERIF_RACE_SWAP": 0, "VERIF_RACE_STORM": 8, "VERIF_RACE_READY": 40}, min_lines=8)],
         rule=HTTP_RULE,
         level_text=("Proof: the validation decision is exactly: source named and safe, gate keeper ready, source on the list (with the allowed character set) "
                     "when a list is configured, key on the key list when configured; otherwise 400 / 503 / 403 in that order and the wrapped route is not "
